@@ -42,6 +42,10 @@ def run(ctx):
         "character (guards on len(data)/truthiness of data are decided, all other tests explored both ways).")
     r.not_decided = NOT_DECIDED
     publish_rules(ctx)
+    replay_buffer(ctx)
+    r.rule("C05.8", "bytes are decoded by the codec of the encoding object the label resolved to", floor=1)
+    from .c06 import decoder_rule
+    decoder_rule(ctx, "C05.8")
     r.rule("C05.1", "CR LF replacement precedes lone CR replacement on the same variable", floor=1)
     r.rule("C05.2", "carry-over stores are paired (buffer<->truncate, re-inject<->clear)", floor=2)
     r.rule("C05.3", "every non-empty read evaluates the trailing-CR / lead-surrogate test before normalisation", floor=2)
@@ -255,6 +259,33 @@ def publish_rules(ctx):
                     "the next chunk, so a run of characters that starts exactly at a chunk boundary is cut short" % t),
                    (uncond, "charsUntil stops whenever nothing matches, even at the end of a chunk")],
             detail={"test": t})
+
+
+def replay_buffer(ctx):
+    """C05.7: BufferedStream (used for non-seekable byte sources) replays what it has read after the encoding sniffers seek
+    back.  seek() indexes the first recorded chunk unconditionally, so every read -- including an empty one at the end of the
+    input -- has to be recorded, with the position moved to the end of the new chunk, on every path of _readStream."""
+    r = ctx.r
+    r.rule("C05.7", "BufferedStream records every read (chunk appended, position advanced) on every path", floor=2)
+    f = ctx.repo.func(REL, "BufferedStream._readStream")
+    sk = ctx.repo.func(REL, "BufferedStream.seek")
+    guarded_seek = any(isinstance(n, (ast.If, ast.While)) and norm(n.test) in ("self.buffer", "not self.buffer", "len(self.buffer)", "i < len(self.buffer)")
+                       for n in ast.walk(sk.node))
+    indexes = any(isinstance(n, ast.Subscript) and norm(n.value) == "self.buffer" for n in ast.walk(sk.node))
+    cfg = CFG(f.node)
+    reads = [n for n in cfg.stmt_nodes() if any(norm(c.func) == "self.stream.read" for c in node_calls(n))]
+    if len(reads) != 1:
+        r.idiom("C05.7", False, "read-recorded", f.where, "_readStream: the read of the underlying stream was not found")
+        return
+    for label, pred in (("chunk-appended", lambda n: any(norm(c.func) == "self.buffer.append" for c in node_calls(n))),
+                        ("position-advanced", lambda n: n.kind == "stmt" and isinstance(n.ast, (ast.Assign, ast.AugAssign)) and
+                         "self.position" in norm(n.ast.targets[0] if isinstance(n.ast, ast.Assign) else n.ast.target))):
+        bad = cfg.must_follow(reads, pred)
+        r.check("C05.7", not bad or (guarded_seek or not indexes), label, f.where,
+                "_readStream can return without having %s (path %s) while seek() indexes the recorded chunks unconditionally: for an "
+                "empty input on a non-seekable byte stream the sniffers' seek(0) raises IndexError" % (
+                    "recorded the chunk" if label == "chunk-appended" else "advanced the position", " -> ".join(bad[0][1][:5]) if bad else ""),
+                detail={"seek_indexes_buffer": indexes, "seek_guarded": guarded_seek})
 
 
 def thorough(ctx):
